@@ -729,7 +729,8 @@ func registryCleanup(c *engine.Ctx, id, rel string, min int) {
 	reported := map[string]bool{}
 	seen := map[string]bool{}
 	for _, p := range paths {
-		if !strings.Contains(p.Root.Name(), "Store.Watch") {
+		// (a clean-up that became a helper of Watch is still Watch's clean-up)
+		if !strings.Contains(p.Root.Name(), "Store.Watch") && !strings.Contains(c.P.KeyOwner(p.Root), "Store.Watch") {
 			continue
 		}
 		for i := range p.Events {
@@ -1173,7 +1174,46 @@ func drainOnExit(c *engine.Ctx, id, rel string, min int) {
 						deferredDrain = true
 					}
 				}
+				continue
 			}
+			// the clean-up as a named helper the tables have never seen: `defer s.removeWatcher(id, …, eventCh)`
+			var fid *ast.Ident
+			switch f := ast.Unparen(ds.Call.Fun).(type) {
+			case *ast.Ident:
+				fid = f
+			case *ast.SelectorExpr:
+				fid = f.Sel
+			}
+			if fid == nil {
+				continue
+			}
+			fn, _ := p.Root.Pkg.TypesInfo.Uses[fid].(*types.Func)
+			h := c.P.Funcs[fn]
+			if h == nil || !engine.IsNewHelper(h) {
+				continue
+			}
+			param, i := "", 0
+			for _, f := range h.Decl.Type.Params.List {
+				for _, n := range f.Names {
+					if i < len(ds.Call.Args) {
+						if id, ok := ast.Unparen(ds.Call.Args[i]).(*ast.Ident); ok && id.Name == owns {
+							param = n.Name
+						}
+					}
+					i++
+				}
+			}
+			if param == "" {
+				continue
+			}
+			saved := owns
+			owns = param
+			for _, inner := range h.Decl.Body.List {
+				if gs, ok := inner.(*ast.GoStmt); ok && isDrain(gs) {
+					deferredDrain = true
+				}
+			}
+			owns = saved
 		}
 		last := &p.Events[len(p.Events)-1]
 		if last.Kind != engine.EvReturn {
